@@ -2,7 +2,7 @@
    - the ActivateSteps loop: max(maxSteps,0)+1 iterations suffice, for every network and state;
    - NNode.Depth / MaxActivationDepthWithCap(0): nodes+1 levels of recursion suffice, for every network
      whose positions are in range (cyclic or not). *)
-From NeatModel Require Import Res Net SolverUtil.
+From NeatModel Require Import Res Net SolverUtil FastAdj.
 From Coq Require Import Arith Lia.
 Open Scope Z_scope.
 
@@ -169,8 +169,7 @@ Definition call_fuel (call : fstate -> nat -> fstate * res bool) (bound : nat) :
 
 Lemma radj_range cur a : In a (radj fn cur) -> a < T.
 Proof.
-  unfold radj. intros H. apply in_map_iff in H. destruct H as (c & <- & Hc).
-  apply filter_In in Hc. destruct Hc as [Hc _]. apply (conns_ok c Hc).
+  intros H. apply radj_In in H. destruct H as (c & Hc & _ & <-). apply (conns_ok c Hc).
 Qed.
 
 Lemma rec_loop_fuel call b cur (Hcall : call_fuel call b) adjs : forall s0 s,
